@@ -275,6 +275,32 @@ fn body(ctx: &mut Ctx) {
                 if r != Out::Ret((sgn_of(&want), want.mag.clone())) {
                     ctx.viol(format!("from_biguint/into_parts {:?} {}", s, m.to_hex()), "a NoSign request must yield zero, a zero magnitude must yield NoSign", args(), format!("{:?}", (sgn_of(&want), want.mag.to_hex())), format!("{:?}", r));
                 }
+                // the other (Sign, magnitude) constructors follow the same rule: sign and magnitude of the result
+                let u32d = m.to_u32_digits();
+                let bytes = m.to_bytes_le_min();
+                let ctors: Vec<(&str, Box<dyn Fn() -> BigInt>)> = vec![
+                    ("new", Box::new(|| BigInt::new(s, u32d.clone()))),
+                    ("from_slice", Box::new(|| BigInt::from_slice(s, &u32d))),
+                    ("assign_from_slice", Box::new(|| {
+                        let mut t = BigInt::from(-7);
+                        t.assign_from_slice(s, &u32d);
+                        t
+                    })),
+                    ("from_bytes_le", Box::new(|| BigInt::from_bytes_le(s, &bytes))),
+                    ("from_bytes_be", Box::new(|| BigInt::from_bytes_be(s, &bytes.iter().rev().cloned().collect::<Vec<u8>>()))),
+                    ("from_radix_le(256)", Box::new(|| BigInt::from_radix_le(s, &bytes, 256).unwrap())),
+                ];
+                for (name, f) in &ctors {
+                    ctx.compared(1);
+                    let r = call(ctx, || {
+                        let x = f();
+                        (x.sign(), nat_of(x.magnitude()), x.is_zero(), x.is_positive(), x.is_negative())
+                    });
+                    let w = (sgn_of(&want), want.mag.clone(), want.is_zero(), want.signum() > 0, want.signum() < 0);
+                    if r != Out::Ret(w.clone()) {
+                        ctx.viol(format!("{} {:?} {}", name, s, m.to_hex()), "sign / magnitude of a value built from a (Sign, magnitude) request: a NoSign request must yield zero, a zero magnitude must yield NoSign", args(), format!("{:?}", (w.0, w.1.to_hex(), w.2, w.3, w.4)), format!("{:?}", r));
+                    }
+                }
             }
         }
     }
